@@ -41,7 +41,7 @@ def gen_content(rng, tag, min_lines=1):
         k += 1
         body = ''.join(rng.choice(ALPH) for _ in range(rng.randint(1, 9)))
         lead = rng.choice(['', '', ' ', '\t', '      ', ' \t', '\t '])
-        trail = rng.choice(['', '', '', ' ', '\t', '  '])
+        trail = rng.choice(['', '', '', ' ', '\t', '  ', '', '', '', ' ', '\t', '  ', '\\', ' \\', '\t\\'])      # (a line-final backslash in 1 of 5 lines)
         lines.append(('%s%s_%s%d_%s' % (lead, body, tag, k, trail)).encode('utf-8'))
     if all(not x.strip() for x in lines):
         lines.append(('keep_%s0_' % tag).encode())
@@ -78,7 +78,7 @@ def forbid(content, kind):
     return [ln for ln in content if not any(b in ln for b in bad)]
 
 
-def build(base_lines, regions):
+def build(base_lines, regions, final_nl=True):
     """base_lines: list of byte lines; regions: list of (position, off, content lines, on or None).  returns bytes"""
     out = []
     by_pos = {}
@@ -92,7 +92,7 @@ def build(base_lines, regions):
                 out.append(on.encode())
         if i < len(base_lines):
             out.append(base_lines[i])
-    return b'\n'.join(out) + b'\n'
+    return b'\n'.join(out) + (b'\n' if final_nl else b'')
 
 
 def norm_region(lines):
@@ -122,7 +122,8 @@ def judge(case):
     regions = ex['regions']          # [[pos, off, [content lines as latin-1 str], on|None, kind]]
     base = [x.encode('latin-1') for x in ex['base']]
     regs = [(p, off, [c.encode('latin-1') for c in content], on) for p, off, content, on, kind in regions]
-    src = build(base, regs)
+    final_nl = not ex.get('no_final_nl')
+    src = build(base, regs, final_nl)
     cfg = case.cfg
     r, _ = run.fmt(src, case.lang, cfg)
     if r.timeout:
@@ -166,7 +167,7 @@ def judge(case):
     # (b) opacity
     if ex.get('alt'):
         regs2 = [(p, off, [c.encode('latin-1') for c in alt], on) for (p, off, _c, on), alt in zip(regs, ex['alt'])]
-        src2 = build(base, regs2)
+        src2 = build(base, regs2, final_nl)
         r2, _ = run.fmt(src2, case.lang, cfg)
         if r2.ok and not r2.timeout:
             first, last = regs[0], regs[-1]
@@ -213,6 +214,8 @@ def draw_cfg(rng, density, lang):
                   'mod_remove_extra_semicolon': 'true'})
     if lang == 'PAWN' and rng.random() < 0.5:
         d['mod_pawn_semicolon'] = 'true'
+    if rng.random() < 0.15:
+        d['disable_processing_nl_cont'] = 'true'      # ("whatever the configuration says": the other way of switching formatting off)
     family.apply_exclusions(d, _EX)
     registry.fix_nl_max(d)
     return d
@@ -241,6 +244,8 @@ def mk_case(base_lines, positions, lang, rng, origin, cfg_density):
                         None if (last and unterminated) else on, k])
         alts.append([c.decode('latin-1') for c in alt])
     extra = {'base': [b.decode('latin-1') for b in base_lines], 'regions': regions, 'alt': alts}
+    if unterminated and rng.random() < 0.5:
+        extra['no_final_nl'] = True          # the region's last line is the last line of the file and has no terminator
     return family.Case(b'', lang, cfgd, origin, extra)
 
 
